@@ -68,7 +68,8 @@ func c16strings(rng *rand.Rand, L int) (out [][]byte, classes []string) {
 		"p-1": new(big.Int).Sub(ref.P, bigOne), "p": ref.P,
 		"r*k": new(big.Int).Mul(r, big.NewInt(int64(2+rng.Intn(5)))),
 	}
-	for name, v := range vals {
+	for _, name := range sortedKeys(vals) {
+		v := vals[name]
 		be := v.Bytes()
 		if len(be) > L {
 			continue
@@ -84,7 +85,9 @@ func c16strings(rng *rand.Rand, L int) (out [][]byte, classes []string) {
 		add(l, "le:"+name)
 	}
 	if L >= 32 {
-		for name, m := range map[string]*big.Int{"r": r, "p": ref.P, "2r": new(big.Int).Lsh(r, 1)} {
+		mods := map[string]*big.Int{"r": r, "p": ref.P, "2r": new(big.Int).Lsh(r, 1)}
+		for _, name := range sortedKeys(mods) {
+			m := mods[name]
 			ns := limbNeighbours(m, rng)
 			for k := 0; k < 6; k++ {
 				v := ns[rng.Intn(len(ns))]
